@@ -72,10 +72,22 @@ pub static UTF8_DATA: Utf8Data = Utf8Data {
 // to use, let's implement custom dispatch here. As a bonus, the `core_detect` crate
 // works without `std`.
 
+/// Verification hook (off unless the `hsivonen_encoding_rs_verif` feature is
+/// enabled, and even then off until switched on at run time): when set,
+/// `fast_utf8_valid_up_to` declines every input so that the built-in scalar
+/// validator also sees inputs of 64 bytes or more.
+#[cfg(feature = "hsivonen_encoding_rs_verif")]
+pub(crate) static VERIF_SKIP_FAST_UTF8: core::sync::atomic::AtomicBool =
+    core::sync::atomic::AtomicBool::new(false);
+
 cfg_if! {
     if #[cfg(all(target_arch = "aarch64", target_feature = "neon"))] {
         #[inline(always)]
         fn fast_utf8_valid_up_to(src: &[u8]) -> Option<usize> {
+            #[cfg(feature = "hsivonen_encoding_rs_verif")]
+            if VERIF_SKIP_FAST_UTF8.load(core::sync::atomic::Ordering::Relaxed) {
+                return None;
+            }
             if src.len() >= 64 {
                 // SAFETY: The cfg check above ensures that the precondition, NEON availability on aarch64, is satisfied.
                 Some(match unsafe { simdutf8::compat::imp::aarch64::neon::validate_utf8(src) } {
@@ -89,6 +101,10 @@ cfg_if! {
     } else if #[cfg(target_feature = "avx2")] {
         #[inline(always)]
         fn fast_utf8_valid_up_to(src: &[u8]) -> Option<usize> {
+            #[cfg(feature = "hsivonen_encoding_rs_verif")]
+            if VERIF_SKIP_FAST_UTF8.load(core::sync::atomic::Ordering::Relaxed) {
+                return None;
+            }
             if src.len() >= 64 {
                 // SAFETY: The cfg check above ensures that the precondition, AVX2 availability, is satisfied.
                 Some(match unsafe { simdutf8::compat::imp::x86::avx2::validate_utf8(src) } {
@@ -102,6 +118,10 @@ cfg_if! {
     } else if #[cfg(target_feature = "sse4.2")] {
         #[inline(always)]
         fn fast_utf8_valid_up_to(src: &[u8]) -> Option<usize> {
+            #[cfg(feature = "hsivonen_encoding_rs_verif")]
+            if VERIF_SKIP_FAST_UTF8.load(core::sync::atomic::Ordering::Relaxed) {
+                return None;
+            }
             if src.len() >= 64 {
                 if core_detect::is_x86_feature_detected!("avx2") {
                     // SAFETY: The dynamic check above ensures that the precondition, AVX2 availability, is satisfied.
@@ -123,6 +143,10 @@ cfg_if! {
     } else if #[cfg(target_feature = "sse")] { // "sse" stands in for cpuid availability
         #[inline(always)]
         fn fast_utf8_valid_up_to(src: &[u8]) -> Option<usize> {
+            #[cfg(feature = "hsivonen_encoding_rs_verif")]
+            if VERIF_SKIP_FAST_UTF8.load(core::sync::atomic::Ordering::Relaxed) {
+                return None;
+            }
             if src.len() >= 64 {
                 if core_detect::is_x86_feature_detected!("avx2") {
                     // SAFETY: The dynamic check above ensures that the precondition, AVX2 availability, is satisfied.
@@ -146,6 +170,10 @@ cfg_if! {
     } else if #[cfg(all(target_arch = "wasm32", target_feature = "simd128"))] {
         #[inline(always)]
         fn fast_utf8_valid_up_to(src: &[u8]) -> Option<usize> {
+            #[cfg(feature = "hsivonen_encoding_rs_verif")]
+            if VERIF_SKIP_FAST_UTF8.load(core::sync::atomic::Ordering::Relaxed) {
+                return None;
+            }
             if src.len() >= 64 {
                 // SAFETY: The cfg check above ensures that the precondition, simd128 availability on wasm32, is satisfied.
                 Some(match unsafe { simdutf8::compat::imp::wasm32::simd128::validate_utf8(src) } {
